@@ -43,13 +43,26 @@ Definition outcome_eqb (a b : outcome) : bool :=
   | _, _ => false
   end.
 
-Record case := mkcase { k_v2 : bool; k_init : account; k_steps : list (op * outcome * account) }.
+(* a case: the world of three accounts — 0 the depositor (only its pool vaults are observed), 1 the
+   target (possibly a preallocated account that does not exist yet: observed as the blueprint
+   defaults), 2 a bystander — and after every transaction the observed state of all three *)
+Definition vaults_eqb (a b : account) : bool :=
+  forallb (fun r => opt_eqb Z.eqb (lookup r (a_vaults a)) (lookup r (a_vaults b))) pool_res.
+Record case := mkcase {
+  k_v2 : bool; k_dep : list (res * Z); k_init : account; k_by : account;
+  k_steps : list (wop * outcome * list (res * Z) * account * account) }.
+Definition dep_acct (v : list (res * Z)) : account := mkacct Accept [] [] v.
 
-Fixpoint replay (v2 : bool) (a : account) (l : list (op * outcome * account)) : bool :=
+Fixpoint replay (v2 : bool) (w : world) (l : list (wop * outcome * list (res * Z) * account * account)) : bool :=
   match l with
   | [] => true
-  | (o, out, obs) :: l' =>
-      let r := step v2 a o in
-      outcome_eqb (snd r) out && acct_eqb (fst r) obs && replay v2 (fst r) l'
+  | (o, out, dv, tobs, bobs) :: l' =>
+      let r := wstep v2 w o in
+      outcome_eqb (snd r) out
+      && vaults_eqb (wget (fst r) 0%N) (dep_acct dv)
+      && acct_eqb (wget (fst r) 1%N) tobs
+      && acct_eqb (wget (fst r) 2%N) bobs
+      && replay v2 (fst r) l'
   end.
-Definition check (k : case) : bool := replay (k_v2 k) (k_init k) (k_steps k).
+Definition check (k : case) : bool :=
+  replay (k_v2 k) [(0%N, dep_acct (k_dep k)); (1%N, k_init k); (2%N, k_by k)] (k_steps k).
